@@ -330,6 +330,9 @@ def run(tier, pid="C10"):
         "final status of the same key, or an attachment split over several events; distinct by event sequence.",
     )
     rep.assume("StreamToExtendedDecorator ignores 'exists' events by design (modelled with DropExists=TRUE)")
+    rep.assume("events without a test id (with any file / mime / eof / tags / timestamp / route payload) report nothing in any "
+               "of the three consumers, also not at stopTestRun (sr_expA for StreamToDict / StreamSummary, sr_expXN for "
+               "StreamToExtendedDecorator)")
     rep.assume("incomplete tests may be replayed by StreamToExtendedDecorator as failure or error")
     rep.assume("'fail' may land in StreamSummary.errors or .failures; uxsuccess is not required to clear wasSuccessful")
     jobs = [
